@@ -115,6 +115,17 @@ type haRun struct {
 	s7crown  int           // the node that sees cert votes first (and next votes late); -1: not chosen yet
 	s7pickAt int           // 0: the sender of the round's first cert vote is crowned; 1: a PRNG-chosen node
 	s7split  time.Duration // how much later the other side sees the withheld votes
+	// S8 (split next quorums): in period 0 of the target round both a bottom and a value next-quorum form and the
+	// nodes are split between them; see routeS8
+	s8round   basics.Round
+	s8B       map[int]bool // nodes that learn the bottom quorum (s8first is the one that gets it at once)
+	s8first   int
+	s8step4   map[int]bool // senders of step next+1 votes seen
+	s8step5   map[int]bool // senders of step next+2 votes seen
+	s8soft    []*haPending // soft votes held back
+	s8late4   []*haPending // step next+1 votes held back for the rest of B
+	s8phase   int
+	forceSync bool
 	s7payloadAt time.Duration // latest scheduled arrival of a late payload of this round
 	s7jitter    time.Duration // next votes reach the non-crowned nodes this long after the late payload
 	s7nextNow   bool          // variety: next votes are not held back
@@ -345,7 +356,11 @@ func (run *haRun) execute() {
 		}
 		run.absorb()
 		if !run.tail {
-			if run.maxNext() >= basics.Round(1+cs.PrefixRnds) || cl.Now() >= prefixCap {
+			if cs.Net == "S8" && !run.forceSync && run.s8Done() {
+				run.forceSync = true
+				cl.mon.c.Count("s8_split_next_quorum_prefixes_built", 1)
+			}
+			if run.maxNext() >= basics.Round(1+cs.PrefixRnds) || cl.Now() >= prefixCap || run.forceSync {
 				run.synchronise()
 				tailCap = cl.Now() + haTailCapVirtual
 				targetTail = run.syncRound + basics.Round(cs.TailRnds)
@@ -414,6 +429,10 @@ func (run *haRun) route(w *haWire, dst int) {
 	}
 	if cs.Net == "S7" {
 		run.routeS7(w, dst, p)
+		return
+	}
+	if cs.Net == "S8" {
+		run.routeS8(w, dst, p)
 		return
 	}
 	// crown: only the crowned nodes receive
@@ -557,6 +576,140 @@ func (run *haRun) routeS7(w *haWire, dst int, p *haPending) {
 		}
 	}
 	run.push(p)
+}
+
+// routeS8 builds, with honest nodes and message delays/losses only, the prefix in which only the re-broadcast of
+// the freshest bundle can restore progress: in period 0 of round s8round
+//   - proposals and payloads reach everybody, soft votes are held back: nobody cert-votes, at the deadline all
+//     next-vote bottom (these step-next votes are lost);
+//   - the step next+1 bottom votes reach one node of set B at once (it enters period 1 through the bottom quorum),
+//     are held back for the rest of B and lost for set A;
+//   - then the soft votes arrive: v is staged, the remaining nodes next-vote v at step next+2; these votes reach
+//     only set A, which enters period 1 through the value quorum;
+//   - finally the held step next+1 votes reach the rest of B, which enters period 1 through the bottom quorum.
+// Neither A nor B is a quorum. Everything else of that round is lost, then the synchrony point is forced.
+// PRNG: the target round, the members and size of B, the first node.
+func (run *haRun) routeS8(w *haWire, dst int, p *haPending) {
+	cl := run.cl
+	if run.s8B == nil {
+		n := run.cs.Nodes
+		run.s8round = basics.Round(1 + run.r.Intn(2))
+		sizeB := 2 + run.r.Intn(n-3) // 2..n-2: neither side reaches a quorum (which needs n-1 nodes)
+		perm := run.r.Perm(n)
+		run.s8B = map[int]bool{}
+		for _, i := range perm[:sizeB] {
+			run.s8B[i] = true
+		}
+		run.s8first = perm[0]
+		run.s8step4, run.s8step5 = map[int]bool{}, map[int]bool{}
+		cl.sched("S8 round=%d B=%v first=%d", run.s8round, keysOf(run.s8B), run.s8first)
+	}
+	var rv rawVote
+	isVote := false
+	switch w.tag {
+	case protocol.AgreementVoteTag:
+		if o, err := decodeVote(w.data); err == nil {
+			rv, isVote = o.(unauthenticatedVote).R, true
+		}
+	case protocol.VoteBundleTag:
+		if o, err := decodeBundle(w.data); err == nil && o.(unauthenticatedBundle).Round == run.s8round {
+			run.drops++
+			return // no bundle of the target round gets through before the synchrony point
+		}
+	case protocol.ProposalPayloadTag:
+		if o, err := decodeProposal(w.data); err == nil {
+			cm := o.(compoundMessage)
+			if cm.Proposal.Round() == run.s8round && cm.Proposal.OriginalPeriod == 0 && (cm.Vote == (unauthenticatedVote{}) || cm.Vote.R.Period == 0) {
+				run.push(p)
+				return
+			}
+			if cm.Proposal.Round() == run.s8round {
+				run.drops++
+				return
+			}
+		}
+	}
+	if !isVote || rv.Round != run.s8round {
+		run.push(p) // other rounds run undisturbed
+		return
+	}
+	if rv.Period != 0 {
+		run.drops++ // period >= 1 of the target round: nothing gets through before the synchrony point
+		return
+	}
+	author := w.src // relays carry other nodes' votes: phases are driven by who cast a vote, not by who forwards it
+	if acc, ok := cl.byAddr[rv.Sender]; ok && acc.owner >= 0 {
+		author = acc.owner
+	}
+	switch {
+	case rv.Step == propose:
+		run.push(p)
+	case rv.Step == soft:
+		if run.s8phase >= 1 {
+			run.push(p)
+		} else {
+			run.s8soft = append(run.s8soft, p)
+		}
+	case rv.Step == next+1:
+		run.s8step4[author] = true
+		switch {
+		case dst == run.s8first:
+			run.push(p)
+		case run.s8B[dst]:
+			if run.s8phase >= 2 {
+				run.push(p)
+			} else {
+				run.s8late4 = append(run.s8late4, p)
+			}
+		default:
+			run.drops++
+		}
+		if run.s8phase == 0 && len(run.s8step4) >= run.cs.Nodes-1 {
+			run.s8phase = 1
+			cl.sched("S8 release soft votes (%d)", len(run.s8soft))
+			for _, q := range run.s8soft {
+				q.at = cl.Now()
+				run.push(q)
+			}
+			run.s8soft = nil
+		}
+	case rv.Step == next+2:
+		run.s8step5[author] = true
+		if !run.s8B[dst] {
+			run.push(p)
+		} else {
+			run.drops++
+		}
+		if run.s8phase == 1 && len(run.s8step5) >= run.cs.Nodes-1 {
+			run.s8phase = 2
+			cl.sched("S8 release held bottom votes (%d)", len(run.s8late4))
+			for _, q := range run.s8late4 {
+				q.at = cl.Now()
+				run.push(q)
+			}
+			run.s8late4 = nil
+		}
+	default:
+		run.drops++ // cert, step next, steps > next+2, fast-recovery votes of period 0: lost
+	}
+}
+
+// s8Done: every node has left period 0 of the target round after the construction completed.
+func (run *haRun) s8Done() bool {
+	if run.s8phase < 2 {
+		return false
+	}
+	for _, n := range run.cl.nodes {
+		inc := n.live()
+		if inc == nil {
+			return false
+		}
+		r, p, _ := inc.pos()
+		if r != run.s8round || p < 1 {
+			return false
+		}
+	}
+	return true
 }
 
 func keysOf(m map[int]bool) []int {
